@@ -531,6 +531,21 @@ Proof.
   destruct b; cbn [zget]; [rewrite Z.eqb_refl|]; reflexivity.
 Qed.
 
+(* x/feemarket InitGenesis never alters what it is given: whatever the values (fractional min gas price, base fee on,
+   above or below the floor), the stored params are the params of the document *)
+Lemma import_fm_id : forall f f', import_fm f = Ok f' -> f' = f /\ fm_valid f = true.
+Proof. intros f f' H. unfold import_fm in H. destruct (fm_valid f); [|discriminate]. inversion H. auto. Qed.
+
+Lemma import_fm_valid : forall f, fm_valid f = true -> import_fm f = Ok f.
+Proof. intros f H. unfold import_fm. rewrite H. reflexivity. Qed.
+
+Lemma import_fm_invalid : forall k v g, fm_valid (g_fm g) = false -> import k v g = Panic.
+Proof.
+  intros k v g H. unfold import, import_fm. rewrite H.
+  destruct (import_accts v (Evm (g_evm_params g) [] [] []) (g_accounts g)); [|reflexivity].
+  destruct (import_cpc k v g); reflexivity.
+Qed.
+
 (* the state a fresh application holds after InitChain on the export of s *)
 Lemma import_export_shape : forall k v s s', k_staking_addr k <> k_bech32_addr k ->
   import k v (export k s) = Ok s' ->
@@ -541,7 +556,10 @@ Lemma import_export_shape : forall k v s s', k_staking_addr k <> k_bech32_addr k
 Proof.
   intros k v s s' Hne H. unfold import in H. rewrite (import_cpc_export k v s Hne) in H.
   unfold export in H at 1 2. cbn [g_evm_params g_accounts g_fm] in H.
+  change (g_fm (export k s)) with (s_fm s) in H.
   destruct (import_accts v (Evm (e_params (s_evm s)) [] [] []) (export_evm (s_evm s))) as [e'|]; [|discriminate].
+  destruct (import_fm (s_fm s)) as [f'|] eqn:Ef; [|discriminate].
+  destruct (import_fm_id _ _ Ef) as [Hf _]. subst f'.
   inversion H; subst s'. cbn. auto.
 Qed.
 
@@ -557,13 +575,14 @@ Qed.
 
 (* the import of an export succeeds exactly when x/auth handed over a BaseAccount for every exported address *)
 Lemma import_export_total : forall k v s, k_staking_addr k <> k_bech32_addr k ->
+  fm_valid (s_fm s) = true ->
   (forall g, In g (export_evm (s_evm s)) -> v_base_acct v (ga_addr g) = true) ->
   exists s', import k v (export k s) = Ok s'.
 Proof.
-  intros k v s Hne Hb. unfold import. rewrite (import_cpc_export k v s Hne).
-  unfold export at 1 2. cbn [g_evm_params g_accounts g_fm].
+  intros k v s Hne Hfv Hb. unfold import. rewrite (import_cpc_export k v s Hne).
+  unfold export at 1 2. cbn [g_evm_params g_accounts g_fm]. change (g_fm (export k s)) with (s_fm s).
   destruct (import_accts_total v (export_evm (s_evm s)) (Evm (e_params (s_evm s)) [] [] []) Hb) as [e' He].
-  rewrite He. eauto.
+  rewrite He, (import_fm_valid _ Hfv). eauto.
 Qed.
 
 Lemma import_export_panic : forall k v s g,
@@ -636,6 +655,7 @@ Qed.
 
 (* ================================================================== the invariant holds in every reachable state *)
 Record wf (v : env) (s : cstate) : Prop := {
+  wf_fm : fm_valid (s_fm s) = true;
   wf_e : wf_evm v (s_evm s);
   wf_metas : sortedP (c_metas (s_cpc s));
   wf_denoms : sortedP (c_denoms (s_cpc s));
@@ -650,12 +670,13 @@ Proof.
   apply andb_true_iff in H. destruct H as [H H4].
   apply andb_true_iff in H. destruct H as [H H3].
   apply andb_true_iff in H. destruct H as [H1 H2].
-  constructor; [apply wfb_evm_wf; assumption|apply sortedb_P; assumption ..].
+  apply andb_true_iff in H1. destruct H1 as [H0 H1].
+  constructor; [exact H0|apply wfb_evm_wf; assumption|apply sortedb_P; assumption ..].
 Qed.
 
 Lemma wf_wfb : forall v s, wf v s -> wfb v s = true.
 Proof.
-  intros v s [H1 H2 H3 H4 H5]. unfold wfb.
+  intros v s [H0 H1 H2 H3 H4 H5]. unfold wfb. rewrite H0.
   rewrite (wf_evm_wfb _ _ H1), (sortedP_b _ H2), (sortedP_b _ H3), (sortedP_b _ H4), (sortedP_b _ H5). reflexivity.
 Qed.
 
@@ -726,6 +747,8 @@ Proof.
   intros k v g s H0 H. unfold import in H.
   destruct (import_accts v (Evm (g_evm_params g) [] [] []) (g_accounts g)) as [e|] eqn:Ee; [|discriminate].
   destruct (import_cpc k v g) as [c|] eqn:Ec; [|discriminate].
+  destruct (import_fm (g_fm g)) as [f|] eqn:Ef; [|discriminate].
+  destruct (import_fm_id _ _ Ef) as [Hf Hfv]. subst f.
   inversion H; subst s; clear H.
   assert (Hwe : wf_evm v e).
   { refine (import_accts_wf v _ (Evm (g_evm_params g) [] [] []) _ _ Ee).
@@ -755,14 +778,14 @@ Proof.
         rewrite D3, D2, A3, A2. cbn. auto.
       + destruct (deploy_sorted _ _ _ _ Ec I) as (S3 & D3 & A3). rewrite D3, A3. cbn. auto. }
   destruct Hc as (Hm & Hd & Ha).
-  constructor; cbn [s_evm s_cpc s_proofs]; try assumption. exact I.
+  constructor; cbn [s_evm s_cpc s_proofs s_fm]; try assumption. exact I.
 Qed.
 
 Lemma apply_op_wf : forall k v s o, wf v s -> wf v (apply_op k v s o).
 Proof.
-  intros k v [[p ch cd st] f [cp ms ds al] pr] o [He Hm Hd Ha Hp].
+  intros k v [[p ch cd st] f [cp ms ds al] pr] o [Hf He Hm Hd Ha Hp].
   cbn [s_evm s_cpc s_proofs s_fm c_metas c_denoms c_allow c_params] in *.
-  destruct o as [a c|a slot val|a|p'|f'|p'|addr denom m|m|owner spender amt|a p']; cbn [apply_op s_evm s_cpc s_proofs s_fm e_params e_codehash e_code e_storage c_metas c_denoms c_allow c_params].
+  destruct o as [a c|a slot val|a|p'|f'|next|p'|addr denom m|m|owner spender amt|a p']; cbn [apply_op s_evm s_cpc s_proofs s_fm e_params e_codehash e_code e_storage c_metas c_denoms c_allow c_params].
   - (* OSetCode *)
     constructor; cbn [s_evm s_cpc s_proofs c_metas c_denoms c_allow]; try assumption.
     destruct (v_hash v c =? EMPTYH) eqn:Eh.
@@ -795,7 +818,12 @@ Proof.
     + apply filter_sorted. exact Hst.
     + intros a0 h0 Hin. exact (Hco _ _ (In_zdel _ _ _ Hin)).
   - constructor; cbn [s_evm s_cpc s_proofs c_metas c_denoms c_allow]; try assumption. exact (wf_evm_params _ _ _ _ _ _ He).
-  - constructor; cbn [s_evm s_cpc s_proofs c_metas c_denoms c_allow]; assumption.
+  - (* OFm: SetParams refuses an invalid value *)
+    destruct (fm_valid f') eqn:Ev; constructor; cbn [s_evm s_cpc s_proofs s_fm c_metas c_denoms c_allow]; assumption.
+  - (* OEndBlock *)
+    destruct (next <? 0) eqn:En; [constructor; assumption|].
+    constructor; cbn [s_evm s_cpc s_proofs s_fm c_metas c_denoms c_allow]; try assumption.
+    unfold fm_valid in *. cbn [f_base_fee f_min_gas_price] in *. lia.
   - constructor; cbn [s_evm s_cpc s_proofs c_metas c_denoms c_allow]; assumption.
   - (* ODeployErc20 *)
     destruct (zhas denom ds); [constructor; assumption|].
@@ -872,6 +900,20 @@ Proof.
     + intros a. rewrite Hch. reflexivity.
     + apply Hc. exact Hc'.
     + apply Hv. exact Hv'.
+Qed.
+
+(* fee market over blocks: whatever the params governance has set (any non-negative base fee, any non-negative min gas
+   price incl. fractional ones) and whatever the EIP-1559 formula yields for the block, the state EndBlock leaves
+   (base fee = max next trunc(min gas price)) is reproduced exactly by export ; import *)
+Lemma feemarket_endblock_roundtrip : forall k v s f next s',
+  consts_ok k -> fm_valid f = true -> 0 <= next ->
+  import k v (export k (apply_op k v (apply_op k v s (OFm f)) (OEndBlock next))) = Ok s' ->
+  s_fm s' = Fm (Z.max next (fm_floor f)) (f_min_gas_price f) /\
+  fm_floor (s_fm s') <= f_base_fee (s_fm s') /\ fm_floor (s_fm s') = fm_floor f.
+Proof.
+  intros k v s f next s' Hne Hv Hn Hi. rewrite (roundtrip_feemarket _ _ _ _ Hne Hi).
+  cbn [apply_op]. rewrite Hv. cbn [s_fm]. destruct (next <? 0) eqn:En; [lia|]. cbn [s_fm].
+  unfold fm_floor. cbn [f_base_fee f_min_gas_price]. split; [reflexivity|]. split; [lia|reflexivity].
 Qed.
 
 Lemma history_roundtrip : forall k v g ops s0 s',
